@@ -18,6 +18,7 @@ type ExecVariant struct {
 	Seed     uint64  `json:"seed,omitempty"`
 	Sched    string  `json:"sched,omitempty"`    // controlled worker schedule policy ("" = free running)
 	FailEncode int   `json:"fail_encode,omitempty"` // the k-th element Encode call of every deterministic commit fails once (the commit is then retried)
+	Flip     bool    `json:"flip,omitempty"`     // every commit uses the other flavour: the order-relaxed commit may differ from the deterministic one only in the order of its writes
 	FreeOrder bool   `json:"free_order,omitempty"` // the order-relaxed commit iterates its write set in Go's own (randomised) map order: the job-order hook is off
 	Elem     int     `json:"elem,omitempty"`     // element-granular worker yields: park at every Elem-th callback inside a worker job (0 = job granularity only)
 }
@@ -66,6 +67,13 @@ func execForDigest(tr *Trace, variant ExecVariant, stats *Stats) ([]commitPoint,
 		logStart := len(w.Ledger.Log)
 		if isCommit && variant.Workers > 0 {
 			st.Workers = variant.Workers
+		}
+		if isCommit && variant.Flip {
+			if flavourName(st.Flavour) == "fc" {
+				st.Flavour = "nfc"
+			} else {
+				st.Flavour = "fc"
+			}
 		}
 		var v *Violation
 		if isCommit && variant.FailEncode > 0 && flavourName(st.Flavour) == "fc" {
@@ -131,6 +139,17 @@ func comparePoints(a, b []commitPoint, what string) *Violation {
 			return &Violation{Class: "det.bytes", Step: x.Step, Msg: fmt.Sprintf("registers after the commit at step %d differ under %s (%s vs %s)", x.Step, what, x.State, y.State)}
 		}
 		if x.Flavour == "fc-failed" {
+			continue
+		}
+		if x.Flavour != y.Flavour {
+			// the two executions used different commit flavours: same set of writes and deletions, order free
+			xs := append([]string(nil), x.Writes...)
+			ys := append([]string(nil), y.Writes...)
+			sort.Strings(xs)
+			sort.Strings(ys)
+			if fmt.Sprint(xs) != fmt.Sprint(ys) {
+				return &Violation{Class: "det.writes", Step: x.Step, Msg: fmt.Sprintf("the commit at step %d issues a different set of writes / deletions as a deterministic and as an order-relaxed commit (%s): %d vs %d", x.Step, what, len(xs), len(ys))}
+			}
 			continue
 		}
 		if x.Flavour == "fc" {
@@ -258,6 +277,7 @@ func init() {
 			{GCProb: 0.15, Seed: vr.U64()},
 			{Seed: vr.U64(), FreeOrder: true}, // plain repetition with the library's own map iteration orders everywhere
 			{Workers: []int{1, 2, 8}[vr.Intn(3)], Seed: vr.U64(), FreeOrder: true},
+			{Workers: []int{1, 2, 4}[vr.Intn(3)], Seed: vr.U64(), Flip: true},
 			{Workers: []int{1, 1, 2, 8}[vr.Intn(4)], FailEncode: vr.Range(1, 40), Seed: vr.U64()},
 		}
 		if tier == "thorough" {
